@@ -281,9 +281,65 @@ def check_symlinked_input(rng):
             out.append(("C16:standalone-embeds-file-from-outside-its-root", "book/only.md links private.jpg which exists only next to the symlink's target: no error raised"))
         except StaticSiteError:
             pass
+        # the same through the command line (recipe-grid FILE OUT), which is how a user reaches the stand-alone generator
+        import contextlib
+        import io
+        import sys
+        from recipe_grid.scripts import recipe_grid as cli
+        for name, must_fail in (("soup.md", False), ("only.md", True)):
+            o = scratch / ("cli-" + name + ".html")
+            old, code = sys.argv, 0
+            sys.argv = ["recipe-grid", str(book / name), str(o)]
+            try:
+                with contextlib.redirect_stdout(io.StringIO()), contextlib.redirect_stderr(io.StringIO()):
+                    try:
+                        cli.main()
+                    except SystemExit as e:
+                        code = e.code or 0
+                    except StaticSiteError:
+                        code = 1
+            finally:
+                sys.argv = old
+            page = o.read_text() if o.exists() else ""
+            if must_fail and code == 0:
+                out.append(("C16:standalone-embeds-file-from-outside-its-root", "recipe-grid book/only.md: private.jpg exists only next to the symlink's target; the command succeeded"))
+            if not must_fail and (code != 0 or base64.b64encode(b"book photo bytes").decode() not in page):
+                out.append(("C16:standalone-embeds-file-from-outside-its-root", "recipe-grid book/soup.md (a symlink): exit %r, the page does not embed book/photo.jpg" % (code,)))
+            if base64.b64encode(CANARY)[:20].decode() in page:
+                out.append(("C16:outside-bytes-leaked", "recipe-grid book/%s embedded bytes of a file outside book/" % name))
+        out += check_large_embedded_files(scratch)
         return out
     finally:
         shutil.rmtree(scratch, ignore_errors=True)
+
+
+def check_large_embedded_files(scratch):
+    """embedded copies are byte-exact whatever the size of the file (sizes around powers of two, where buffers end)"""
+    import re
+    out = []
+    d = scratch / "big"
+    d.mkdir()
+    sizes = [0, 1, 2, 3, 4095, 4096, 4097, 65535, 65536, 65537, 1048575, 1048576, 1048577, 1048581, 3 * 1048576 + 1]
+    for i, n in enumerate(sizes):
+        (d / ("f%d.bin" % i)).write_bytes(bytes((j * 7 + i) % 251 for j in range(n)))
+    (d / "r.md").write_text("# Big for 2\n\n    1 x\n\n" + "\n\n".join("![I%d](f%d.bin)" % (i, i) for i in range(len(sizes))) + "\n")
+    try:
+        page = generate_standalone_page(d / "r.md", embed_local_links=True)
+    except Exception as e:  # noqa
+        return [("C16:data-url-wrong", "stand-alone page with files of sizes %r raises %s: %s" % (sizes, type(e).__name__, str(e)[:100]))]
+    urls = re.findall(r'src="(data:[^"]*)"', page)
+    if len(urls) != len(sizes):
+        return [("C16:data-url-wrong", "%d data URLs for %d linked files" % (len(urls), len(sizes)))]
+    for i, (n, u) in enumerate(zip(sizes, urls)):
+        try:
+            data = base64.b64decode(u.split(",", 1)[1], validate=True)
+        except Exception as e:  # noqa
+            out.append(("C16:data-url-wrong", "file of %d bytes: the data URL is not valid base64 (%s)" % (n, e)))
+            break
+        if data != (d / ("f%d.bin" % i)).read_bytes():
+            out.append(("C16:data-url-wrong", "file of %d bytes: the embedded copy has %d bytes / differs" % (n, len(data))))
+            break
+    return out
 
 
 def check_symlinked_recipe_in_site():
